@@ -449,7 +449,8 @@ META["C17"] = {
              "assumptions and guarantees, no empty alternative kept, interface = unions. Non-trivial = all executed "
              "cases; distinct = case digests."),
     "required": ["disjointness:disjoint:overlap=False:returned", "disjointness:touching:overlap=True:ValueError",
-                 "disjointness:overlapping:overlap=True:ValueError", "membership:True", "membership:False",
+                 "disjointness:overlapping:overlap=True:ValueError", "disjointness:subsets:overlap=True:ValueError",
+                 "membership:True", "membership:False",
                  "le:answer=True:counterexample=unsat", "le:answer=False:counterexample=sat", "merge:returned",
                  "merge:result-alternatives"],
     "assumptions": [NUM, TB],
